@@ -94,6 +94,7 @@ IsTag(e) == \/ e.k = "var"
             \/ e.k = "lit" /\ e.v.k \in {"int", "nil", "t"} /\ (("q" \in DOMAIN e) => e.q = 0)
 Stmts(body) == SelectSeq(body, LAMBDA e : ~IsTag(e))
 TagStmt(e) == IF IsTag(e) THEN [k |-> "lit", v |-> Nil] ELSE e          \* a statement of a tagbody that is itself a tag does nothing
+Idx(j) == SubSeq("0123456789", j + 1, j + 1)      \* name of element j of a vector (vectors of the generator have at most 10 elements)
 RECURSIVE Tails(_)
 Tails(es) == IF es = <<>> THEN <<>> ELSE <<ListV(es)>> \o Tails(Tail(es))
 RECURSIVE Flat(_)
@@ -205,6 +206,12 @@ StepEval(m) ==
     \* (incf v d) / (decf v d): the variable is read after the delta form has been evaluated
     [] n.k \in {"incf", "decf"} -> Ev(Push(m, [k |-> "incf", n |-> n.n, sign |-> IF n.k = "incf" THEN 1 ELSE -1, env |-> m.env]), n.e, m.env)
     [] n.k = "push" -> Ev(Push(m, [k |-> "push", n |-> n.n, env |-> m.env]), n.e, m.env)
+    \* (vector e ...): a fresh vector at every evaluation (an environment frame with the elements as variables "0", "1", ...);
+    \* (aref v i) and (setf (aref v i) e) with a literal index
+    [] n.k = "vector" -> IF Len(n.es) = 0 THEN Ret(NewFrame(m, 0, <<>>), [k |-> "vec", id |-> Len(m.heap) + 1])
+                         ELSE Ev(Push(m, [k |-> "args", op |-> "vector", rest |-> Tail(n.es), acc |-> <<>>, env |-> m.env]), n.es[1], m.env)
+    [] n.k = "aref" -> Ev(Push(m, [k |-> "aref", i |-> n.i]), n.a, m.env)
+    [] n.k = "setaref" -> Ev(Push(m, [k |-> "setaref1", i |-> n.i, e |-> n.e, env |-> m.env]), n.a, m.env)
     [] n.k = "pop" -> LET v == Get(m.heap, m.env, n.n)  es == Elts(v) IN
                       IF v.k = "unbound" THEN Err(m, "unbound-variable")
                       ELSE IF v.k \notin {"nil", "list"} THEN Err(m, "type-error")
@@ -292,7 +299,9 @@ StepRet(m) ==
                       ELSE IF fr.op = "car" THEN Ret(m1, IF es = <<>> THEN Nil ELSE es[1])
                       ELSE Ret(m1, IF Len(es) <= 1 THEN Nil ELSE ListV(Tail(es)))
     [] fr.k = "args" -> LET acc == Append(fr.acc, v) IN
-                        IF Len(fr.rest) = 0 THEN (IF fr.op = "list" THEN Ret(m1, ListV(acc)) ELSE RetVs(m1, acc))
+                        IF Len(fr.rest) = 0 THEN (IF fr.op = "list" THEN Ret(m1, ListV(acc))
+                                                  ELSE IF fr.op = "vector" THEN Ret(NewFrame(m1, 0, [j \in 1..Len(acc) |-> [n |-> Idx(j - 1), v |-> acc[j]]]), [k |-> "vec", id |-> Len(m.heap) + 1])
+                                                  ELSE RetVs(m1, acc))
                         ELSE Ev(Push(m1, [fr EXCEPT !.rest = Tail(fr.rest), !.acc = acc]), fr.rest[1], fr.env)
     [] fr.k = "let" -> LET acc == Append(fr.acc, [n |-> fr.bs[fr.i].n, v |-> v]) IN
                        IF fr.i = Len(fr.bs)
@@ -342,6 +351,12 @@ StepRet(m) ==
                            acc == IF fr.i = 0 THEN <<>> ELSE fr.acc \o m.val IN
                        IF fr.i = Len(fr.args) THEN Apply(m1, f, acc, fr.env)
                        ELSE Ev(Push(m1, [fr EXCEPT !.i = fr.i + 1, !.f = f, !.acc = acc]), fr.args[fr.i+1], fr.env)
+    [] fr.k = "aref" -> IF v.k # "vec" THEN Err(m1, "type-error")
+                        ELSE IF fr.i >= Len(m.heap[v.id].vars) THEN Err(m1, "error") ELSE Ret(m1, m.heap[v.id].vars[fr.i + 1].v)
+    [] fr.k = "setaref1" -> Ev(Push(m1, [k |-> "setaref2", i |-> fr.i, vec |-> v]), fr.e, fr.env)      \* the vector form first, then the new value
+    [] fr.k = "setaref2" -> IF fr.vec.k # "vec" THEN Err(m1, "type-error")
+                            ELSE IF fr.i >= Len(m.heap[fr.vec.id].vars) THEN Err(m1, "error")
+                            ELSE Ret([m1 EXCEPT !.heap[fr.vec.id].vars[fr.i + 1].v = v], v)
     [] fr.k = "sloop" -> Body(Push(m1, fr), fr.body, fr.env)
     [] fr.k = "recover" -> RetVs(m1, m.val)
     [] fr.k = "incf" -> LET cur == Get(m.heap, fr.env, fr.n) IN
